@@ -120,7 +120,7 @@ SPEC int k_of(int ecls, int c, int scls) {
   if (scls == CLS_MINF) return ecls == CLS_MINF ? 0 : 1;
   return ecls == CLS_PINF ? 1 : ecls == CLS_MINF ? -1 : c;
 }
-SPEC int s_cls(uint32_t r, T_u to_new) { return (r & V_UNREPRESENTABLE) ? r_cls(r) : x_cls(to_new); }
+SPEC int s_cls(uint32_t r, T_u to_new) { return ((r & V_UNREPRESENTABLE) || (r_cls(r) == CLS_NAN && !POL_HAS_NAN)) ? r_cls(r) : x_cls(to_new); }
 
 /* c_min = sign(exact - EMIN), c_max = sign(exact - EMAX) (finite exact only).
    allow_unknown: the operation is documented to give up with V_UNKNOWN_*_OVERFLOW (fused multiply-add/sub). */
@@ -133,6 +133,10 @@ SPEC int post_rel(uint32_t r, int ecls, int c, int c_min, int c_max, T_u to_new,
     if (to_new != to_old) return 0;                 /* nothing may have been stored */
     if (scls == CLS_FIN) return 0;                  /* only specials can be unrepresentable */
     if (scls == CLS_NAN ? POL_HAS_NAN : POL_HAS_INF) return 0;  /* ... and only when the policy lacks them */
+  }
+  else if (r_cls(r) == CLS_NAN && !POL_HAS_NAN) {   /* NaN outcome under a policy without NaN: nothing stored */
+    if (to_new != to_old) return 0;
+    scls = CLS_NAN;
   }
   else if (r_cls(r) != scls) return 0;              /* class in the code == class of what was stored */
   if (scls == CLS_NAN) {
